@@ -65,6 +65,36 @@ struct ViaAlias
 
 struct Arg1
     w WithDefault
+        "field doc: continue with :route:`r_only_doc`"
+    ad ADoc?
+
+alias ADoc = String
+    "alias doc mentioning :route:`r_alias_doc` and :type:`AliasDocType`"
+
+struct AliasDocType
+    z Int32
+
+struct AliasDocArg
+    y AliasDocDeep
+
+struct AliasDocDeep
+    q String
+
+struct OnlyDocArg
+    cur OnlyDocCursor
+
+struct OnlyDocCursor
+    c String
+
+struct OnlyDocRes
+    r Int32
+
+union OnlyDocErr
+    bad
+
+route r_only_doc(OnlyDocArg, OnlyDocRes, OnlyDocErr)
+
+route r_alias_doc(AliasDocArg, Void, Void)
 
 struct Res1
     t Tree
@@ -111,9 +141,10 @@ route r2b(Void, Far, Void)
 '''),
 ]
 
-ROUTES = {'w1': ['r1', 'r1:2', 'r_doc', 'r_void', 'r_far'], 'w2': ['r2', 'r2b']}
+ROUTES = {'w1': ['r1', 'r1:2', 'r_doc', 'r_void', 'r_far', 'r_only_doc', 'r_alias_doc'], 'w2': ['r2', 'r2b']}
 TYPES = {'w1': ['NsDoc', 'Leaf', 'Unused1', 'Unused2', 'Parent', 'Child', 'Tree', 'TreeA', 'TreeB', 'Tags', 'WithDefault',
-                'DocRefs', 'ViaAlias', 'Arg1', 'Res1', 'Err1'],
+                'DocRefs', 'ViaAlias', 'Arg1', 'Res1', 'Err1', 'AliasDocType', 'AliasDocArg', 'AliasDocDeep', 'OnlyDocArg',
+                'OnlyDocCursor', 'OnlyDocRes', 'OnlyDocErr'],
          'w2': ['Far', 'FarU', 'FarDeep', 'FarLeaf', 'FarUnused']}
 
 
